@@ -135,10 +135,12 @@ fn main() {
         let target = format!("ipps://localhost:{}/ipp/print", srv.port);
         let uri: Uri = target.parse().unwrap();
         let req = IppRequestResponse::new(IppVersion::v1_1(), Operation::GetPrinterAttributes, Some(uri.clone()));
+        let own = std::fs::read(format!("{fix}/{cert}.cert.pem")).unwrap();
         let root: Option<&[u8]> = match roots {
             "none" => None,
             "pem" => Some(&ca_pem),
             "der" => Some(&ca_der),
+            "ownleaf" => Some(&own),
             _ => Some(&other_pem),
         };
         let res: Result<(), String> = if client == "blocking" {
